@@ -718,6 +718,14 @@ func (v Value) data() []Value {
 	if t, ok := v.value.(*sliceT); ok {
 		return t.data
 	}
+	if v.t == TypeString { // append(b, s...): the bytes of s (ranging yields runes at byte offsets)
+		s := v.String()
+		res := make([]Value, len(s))
+		for i := range res {
+			res[i] = Uint8(s[i])
+		}
+		return res
+	}
 	res := make([]Value, v.Len())
 	next := v.Range()
 	for {
